@@ -431,6 +431,7 @@ func TestVerifC01(t *testing.T) {
 		var pendingObs []int
 		var preListing [][]string
 		preExtra := 0
+		activeBase := 0
 		scribbleN := 256
 		if overlap {
 			// in 2 of 3 overlap cases 1-2 more buffers are out for the whole case (other clients' requests
@@ -577,6 +578,7 @@ func TestVerifC01(t *testing.T) {
 					cn = &c01CN{ResponseRecorder: httptest.NewRecorder(), ch: make(chan bool)}
 					if kind != "PUTHANGUP" {
 						preListing, preExtra = listing()
+						activeBase = verifActive()
 					}
 					switch kind {
 					case "PUTABANDON":
@@ -721,10 +723,11 @@ func TestVerifC01(t *testing.T) {
 						trig = nil
 					}
 					// an abandoned WriteBlock may still be running: wait until no volume method is active
+					// (requests of earlier cases that never returned may sit inside a volume method for good)
 					for w, idle := 0, 0; kind == "PUTABANDON" && idle < 3 && w < 20000; w++ {
 						runtime.Gosched()
 						time.Sleep(200 * time.Microsecond)
-						if verifActive() == 0 {
+						if verifActive() <= activeBase {
 							idle++
 						} else {
 							idle = 0
